@@ -2,7 +2,9 @@
 # try_seed.sh <PROP> <dir-with-patch.diff> [check-prop...]: applies the patch to /repo, runs the quick checks, restores /repo.
 P=$1; D=$2; shift; shift; CHECKS=${@:-$P}
 if [ -n "$(git -C /repo status --porcelain)" ]; then echo "/repo is dirty: commit first"; exit 1; fi
+EVB=$(mktemp -d); cp -r /verif/evidence/. $EVB/ 2>/dev/null
 cd /repo && git apply $D/patch.diff || { echo "patch does not apply to /repo"; exit 1; }
 for c in $CHECKS; do (cd /verif && ./bin/govc check -property $c -tier quick 2>&1 | grep -E "VIOLATION|BROKEN|KNOWN|quick:" | cut -c1-300); done
 cd /repo && git checkout -- . 
+cp -r $EVB/. /verif/evidence/ 2>/dev/null; rm -rf $EVB
 git -C /repo status --short | head -3
